@@ -35,10 +35,12 @@ func childFileStore(dir string, n, limit int, mode string) {
 	} else {
 		signal.Ignore(syscall.SIGXFSZ)
 	}
-	lim := syscall.Rlimit{Cur: uint64(limit), Max: uint64(limit)}
-	if err := syscall.Setrlimit(syscall.RLIMIT_FSIZE, &lim); err != nil {
-		fmt.Println("setrlimit:", err)
-		os.Exit(4)
+	if mode != "plain" { // "plain": no limit (the faults come from outside, see fam_filesys.go)
+		lim := syscall.Rlimit{Cur: uint64(limit), Max: uint64(limit)}
+		if err := syscall.Setrlimit(syscall.RLIMIT_FSIZE, &lim); err != nil {
+			fmt.Println("setrlimit:", err)
+			os.Exit(4)
+		}
 	}
 	p := mfile.NewPersistForPath(dir)
 	err := p.Store(context.Background(), crashName, patternBytes(n))
@@ -125,10 +127,11 @@ func (fileCrashExec) ModelLine(line string) string {
 	return fmt.Sprintf("fcrash %d %d", n, steps)
 }
 
-var fileCrashRunner = Runner{Mk: func(Cfg) Executor { return fileCrashExec{} }}
+var theFileSysExec = &fileSysExec{}
+var fileCrashRunner = Runner{Mk: func(Cfg) Executor { return theFileSysExec }}
 
 func famFileCrash(f *FamCtx) {
-	f.Report.Rule = "the real file Store runs in a child process under RLIMIT_FSIZE = cut for EVERY cut in 0..len on small nodes (len 1..40 quick, ..300 thorough) and sampled cuts on larger ones, in two modes: the process is killed by SIGXFSZ at the cut (crash) or the write fails with EFBIG (I/O error); the parent then loads the name, stores it again and loads again; outcomes {absent, complete, partial} compared with the Lean step model of the store at the same cut and with C17's statement; non-trivial = cases with 0 < cut < len"
+	f.Report.Rule = "the real file Store runs in a child process under RLIMIT_FSIZE = cut for EVERY cut in 0..len on small nodes (len 1..40 quick, ..300 thorough) and sampled cuts on larger ones, in two modes: the process is killed by SIGXFSZ at the cut (crash) or the write fails with EFBIG (I/O error); the parent then loads the name, stores it again and loads again; outcomes {absent, complete, partial} compared with the Lean step model of the store at the same cut and with C17's statement; and at system-call level: the child runs under strace, which kills it on entering, or fails with EIO, each system call the store makes on the node's directory (probe, temporary file, write, close, chmod, rename) in turn; non-trivial = cases with 0 < cut < len"
 	rn := fileCrashRunner
 	cfg := Cfg{BF: 16, Fmt: "bin", KK: "u64", VKind: "u64", Cache: "none"}
 	maxLen := f.N(24, 300)
@@ -160,7 +163,21 @@ func famFileCrash(f *FamCtx) {
 	for i := 0; i < f.N(4, 60); i++ {
 		f.RunTreeCase(f.Gen(), rn, func(CaseStats) bool { return true })
 	}
-	f.Report.Stats = map[string]interface{}{"lengths_with_every_cut": exhaustive}
+	// system-call level: a crash (SIGKILL) on entering, or the error EIO from, each system call the
+	// store makes on the node's directory (traced and injected with strace)
+	sysLens := []int{1, 300}
+	if f.Tier == "thorough" {
+		sysLens = []int{1, 2, 300, 5000, 70000, 300000}
+	}
+	for _, n := range sysLens {
+		var ops []string
+		for j := 0; j < 9; j++ {
+			ops = append(ops, fmt.Sprintf("fsys %d %d kill", n, j), fmt.Sprintf("fsys %d %d eio", n, j))
+		}
+		f.RunTreeCase(Case{cfg, ops}, rn, func(CaseStats) bool { return true })
+	}
+	f.Report.Stats = map[string]interface{}{"lengths_with_every_cut": exhaustive,
+		"syscall_faults_injected": theFileSysExec.injected, "syscall_faults_not_injected": theFileSysExec.skipped}
 }
 
 var _ = rand.Int
